@@ -676,9 +676,10 @@ static int cif_loop_get_names_internal(cif_loop_tp *loop, UChar ***item_names, i
                             temp_names = (UChar **) malloc(sizeof(UChar *) * (name_count + 1));
                             if (temp_names == NULL) {
                                 SET_RESULT(CIF_MEMORY_ERROR);
+                            } else if (ROLLBACK_NESTTX(cif->db) != SQLITE_OK) {  /* no changes should have been made */
+                                /* the transaction is still open; fail, which tries once more to end it */
+                                free(temp_names);
                             } else {
-                                ROLLBACK_NESTTX(cif->db);  /* no changes should have been made anyway */
-
                                 temp_names[name_count] = NULL;
                                 LL_FOREACH_SAFE(name_list, next_name, temp_name) {
                                     LL_DELETE(name_list, next_name);
